@@ -40,6 +40,21 @@ GROUPS += [
 for kl in (16, 24, 32):
     GROUPS.append(G("keyexpand.k%d" % kl, "harness/C01/block.c", "h_keyexpand", BLK, defs=["KLEN=%d" % kl], level="Pc", unwind=40,
                     search=20000, fn=["beltKeyExpand", "beltKeyExpand2"], note="all keys of %d octets" % kl))
+BELT2 = ["src/crypto/belt/belt_%s.c" % m for m in ("mac", "dwp", "ctr", "lcl", "block", "ecb", "cbc", "cfb")] + \
+        ["src/math/pp/pp_mul.c", "src/math/pp/pp_red.c", "src/math/pp/pp_etc.c", "src/math/ww.c", "src/core/mem.c", "src/core/util.c",
+         "src/core/blob.c", "src/core/u32.c", "src/core/u64.c", "src/core/u16.c", "src/core/word.c"]
+UF2 = dict(UF)
+for cnt in (0, 1, 15, 16, 17, 32, 33, 48):
+    GROUPS.append(G("modes.mac.cnt%d" % cnt, "harness/C01/modes.c", "h_mac", BELT2, stubs=["stubs/belt_uf.c"], strip=UF2, defs=["CNT=%d" % cnt, "KLEN=32"],
+                    level="B", bound="message length %d octets; key/contents symbolic; block function uninterpreted" % cnt,
+                    unwind=cnt + 24, spec_unwind=cnt + 24, search=20000, split=True, timeout=900, fn=["beltMACStart", "beltMACStepA", "beltMACStepG", "beltMACStepV"]))
+for li, cnt in ((0, 0), (0, 17), (5, 0), (5, 20), (16, 16), (21, 33), (32, 7), (40, 40)):
+    GROUPS.append(G("modes.dwp.i%d.cnt%d.search" % (li, cnt), "harness/C01/modes.c", "h_dwp", BELT2, defs=["LI=%d" % li, "CNT=%d" % cnt, "KLEN=32"],
+                    level="N", backend="native", search=20000, fn=["beltDWPStart", "beltDWPStepI", "beltDWPStepE", "beltDWPStepA", "beltDWPStepG", "beltDWPWrap", "beltDWPUnwrap"],
+                    note="native run of the DWP spec harness on the real primitives; NOT proof"))
+GROUPS.append(G("modes.dwp.i5.cnt20", "harness/C01/modes.c", "h_dwp", BELT2, stubs=["stubs/belt_uf.c"], strip=UF2, defs=["LI=5", "CNT=20", "KLEN=32"],
+                level="B", bound="header 5, message 20 octets", unwind=60, spec_unwind=60, search=20000, split=True, timeout=1500, mem_gb=24,
+                tier="thorough", required=False, fn=["beltDWPStepI", "beltDWPStepA", "beltDWPStepG"], note="attempted"))
 FMT = ["src/crypto/belt/belt_wbl.c", "src/crypto/belt/belt_block.c", "src/crypto/belt/belt_lcl.c", "src/math/zz/zz_mul.c", "src/math/zz/zz_add.c",
        "src/math/ww.c", "src/core/mem.c", "src/core/util.c", "src/core/blob.c", "src/core/u32.c", "src/core/u64.c", "src/core/u16.c", "src/core/word.c"]
 GROUPS += [
